@@ -4,6 +4,7 @@ from ural.utils import SplitResult, urlunsplit, urlsplit, unsplit_netloc
 from ural.infer_redirection import infer_redirection as resolve
 from ural.ensure_protocol import ensure_protocol
 from ural.tld import split_suffix
+from ural.patterns import CONTROL_CHARS_RE
 
 LANG_QUERY_KEYS = ("gl", "hl")
 
@@ -56,7 +57,9 @@ def get_fingerprinted_hostname(url, infer_redirection=True, strip_suffix=False):
         splitted = url
     else:
         try:
-            splitted = urlsplit(ensure_protocol(url.strip()))
+            splitted = urlsplit(
+                ensure_protocol(CONTROL_CHARS_RE.sub("", url).strip())
+            )
         except ValueError:
             return None
 
